@@ -100,7 +100,13 @@ def restored(p, effs):
     for e in p.events[:first + 1]:
         if e.kind == 'call' and e.name.startswith('llvm.memcpy') and e.args[0][0] == 'alloca':
             saved_copy = e.args[0]
-    if saved_copy is None:
+    def entry_value_of(v, addr):
+        """v is the value the location had when the function was entered (read before any write)"""
+        return v[0] == 'ld' and sym.norm(v[1]) == sym.norm(addr) and len(v) > 2 and v[2] == (0, 0)
+    has_entry_saves = any(e.kind == 'store' and e.addr[0] == 'fld' and sym.root_of(e.addr)[0] == 'p'
+                          and sym.mentions(e.val, lambda x: x[0] == 'ld' and len(x) > 2 and x[2] == (0, 0) and x[1][0] == 'fld' and sym.root_of(x[1])[0] == 'p')
+                          for e in p.events[first:])
+    if saved_copy is None and not has_entry_saves:
         return (False, 'no copy of the option is saved before the first effect')
     # the value vector must be detached (set to NULL) before any callee can touch it
     detach = [i for i, e in enumerate(p.events) if e.kind == 'store' and e.addr[0] == 'fld' and e.addr[3] == 'values' and e.val == sym.C0]
@@ -113,7 +119,9 @@ def restored(p, effs):
         v = e.val
         if v[0] == 'ld' and sym.norm(v[1]) == sym.norm(e.addr):
             return True        # a value read from this very location earlier on the path
-        return sym.mentions(v, lambda x: x[0] == 'ld' and (x[1] == saved_copy or (x[1][0] == 'fld' and x[1][1] == saved_copy) or x[1][0] == 'alloca'))
+        if sym.mentions(v, lambda x: entry_value_of(x, e.addr)):
+            return True
+        return saved_copy is not None and sym.mentions(v, lambda x: x[0] == 'ld' and (x[1] == saved_copy or (x[1][0] == 'fld' and x[1][1] == saved_copy) or x[1][0] == 'alloca'))
     real = [x for x in effs if not is_restore(x[0])]
     if not real:
         return (True, 'only restoring stores')
@@ -126,8 +134,10 @@ def restored(p, effs):
             if e.kind == 'store' and e.addr[0] == 'fld' and e.addr[3] == f and sym.root_of(e.addr)[0] == 'p':
                 v = e.val
                 if f == 'flags':
-                    # (flags & ~M) | (saved.flags & M): the modified bits come from the copy
+                    # (flags & ~M) | (saved.flags & M): the modified bits come from the copy / the entry value
                     if sym.mentions(v, lambda x: x[0] == 'ld' and x[1][0] == 'fld' and x[1][1] == saved_copy and x[1][3] == 'flags'):
+                        ok = True
+                    if sym.mentions(v, lambda x: entry_value_of(x, e.addr)):
                         ok = True
                 elif v[0] == 'ld' and v[1][0] == 'fld' and v[1][1] == saved_copy and v[1][3] == f:
                     ok = True
@@ -137,6 +147,8 @@ def restored(p, effs):
                     ok = True
                 elif v[0] == 'ld' and sym.norm(v[1]) == sym.norm(e.addr):
                     # the value read from this very field before it was cleared (saved in a local)
+                    ok = True
+                elif entry_value_of(v, e.addr):
                     ok = True
         if not ok:
             missing.append(f)
@@ -148,7 +160,7 @@ def restored(p, effs):
         for e in p.events[last:]:
             if e.kind == 'store' and e.addr[0] == 'fld' and e.addr[3] == 'flags':
                 if sym.mentions(e.val, lambda x: x[0] == 'bin' and x[1] == 'and' and sym.is_const(x[3]) and (x[3][1] & 4160) == 4160 and
-                                sym.mentions(x[2], lambda y: y[0] == 'ld' and y[1][0] == 'fld' and y[1][1] == saved_copy)):
+                                sym.mentions(x[2], lambda y: (y[0] == 'ld' and y[1][0] == 'fld' and y[1][1] == saved_copy) or entry_value_of(y, e.addr))):
                     okmask = True
         if not okmask:
             return (False, 'the revert does not take both CFGF_RESET and CFGF_MODIFIED back from the saved copy')
